@@ -17,6 +17,7 @@ static void mode_sched(void){
   int fidx=vc_chance(&r,1,2)?3:vc_below(&r,9); int D48=vk_frame_samples(48000,fidx); double Dms=D48/48.0; int fs=vk_frame_samples(Fs,fidx);
   int dtx=vc_chance(&r,4,5); int vbr=vc_chance(&r,2,3); int bitrate=vc_chance(&r,1,6)?OPUS_AUTO:vc_range(&r,8000,64000)*ch; int fmode=vc_chance(&r,1,2)?OPUS_AUTO:VK_MODE_SILK+(int)vc_below(&r,3);
   int antiphase=(ch==2)&&vc_chance(&r,1,8);
+  int onset_q=vc_chance(&r,1,2)?0:(int)vc_range(&r,1,6);   /* eighths of the first active frame that are still digital silence */
   OpusEncoder *e=opus_encoder_create(Fs,ch,app,&err); opus_encoder_ctl(e,OPUS_SET_DTX(dtx)); opus_encoder_ctl(e,OPUS_SET_COMPLEXITY(cx)); opus_encoder_ctl(e,OPUS_SET_BITRATE(bitrate)); opus_encoder_ctl(e,OPUS_SET_VBR(vbr)); if(fmode!=OPUS_AUTO) opus_encoder_ctl(e,VK_SET_FORCE_MODE_REQUEST,fmode);
   if(vc_chance(&r,1,4)) opus_encoder_ctl(e,OPUS_SET_SIGNAL(OPUS_SIGNAL_VOICE));
   OpusDecoder *dA=opus_decoder_create(Fs,ch,&err), *dB=opus_decoder_create(Fs,ch,&err);
@@ -28,11 +29,11 @@ static void mode_sched(void){
   vc_siggen g; vs_init(&g,VS_SPEECHLIKE,Fs,ch,0.6f,vc_next(&r)); static float in[5760*2], oA[5760*2], oB[5760*2]; unsigned char pk[1500]; int maxb=vc_chance(&r,1,6)?vc_range(&r,3,40):1500;
   /* budget: the DTX-off clause and "DTX packet" interpretation need >= 3 bytes per coded frame */
   double subms= Dms<=20?Dms:20; long br_eff= bitrate==OPUS_AUTO?(long)(60*1000/Dms+Fs*ch):bitrate; int nsub=(int)(Dms/subms+0.5); int budget_ok= maxb>=1500 /* small buffers make the encoder fall back to 1-2 byte 'conceal this' packets whatever the DTX setting: they are run for robustness but are outside the packet-size clauses */ && br_eff*subms/8000.0>=4.0; (void)nsub;
-  char desc[200]; snprintf(desc,sizeof desc,"Fs=%d ch=%d app=%d cx=%d frame=%.1fms dtx=%d vbr=%d bitrate=%d mode=%d maxb=%d%s",Fs,ch,app,cx,Dms,dtx,vbr,bitrate,fmode,maxb,antiphase?" antiphase":"");
+  char desc[260]; snprintf(desc,sizeof desc,"Fs=%d ch=%d app=%d cx=%d frame=%.1fms dtx=%d vbr=%d bitrate=%d mode=%d maxb=%d onset at %d/8 of a frame%s",Fs,ch,app,cx,Dms,dtx,vbr,bitrate,fmode,maxb,onset_q,antiphase?" antiphase":"");
   int run=0; /* consecutive <=2-byte packets */ double active_rms_in=0; long nact=0; int refresh_seen=0;
   for(int s=0;s<nseg;s++){ int first_dtx_at=-1; int act_now=seg_act[s]; double eA=0,eB=0,eI=0; long eN=0;
     for(int k=0;k<seg_len[s];k++){
-      if(act_now){ vs_fill(&g,in,fs); if(antiphase) for(int i=0;i<fs;i++) in[2*i+1]=-in[2*i]; active_rms_in+=rms(in,fs*ch); nact++; } else { memset(in,0,sizeof(float)*fs*ch); g.t+=(double)fs/Fs; }
+      if(act_now){ vs_fill(&g,in,fs); if(antiphase) for(int i=0;i<fs;i++) in[2*i+1]=-in[2*i]; if(k==0&&s>0&&onset_q>0){ /* activity resumes inside the frame, not at its start */ int z=fs*onset_q/8; memset(in,0,sizeof(float)*(size_t)z*ch); vc_count("onsets_inside_a_frame",1); } active_rms_in+=rms(in,fs*ch); nact++; } else { memset(in,0,sizeof(float)*fs*ch); g.t+=(double)fs/Fs; }
       int len=opus_encode_float(e,in,fs,pk,maxb); vc_count("packets",1); if(len<=0){ if(len==OPUS_BUFFER_TOO_SMALL&&!budget_ok) continue; vc_viol("encode-failed","encode returned %d (%s)",len,desc); goto out; }
       opus_int32 indtx=-1; opus_encoder_ctl(e,OPUS_GET_IN_DTX(&indtx)); int tiny=(len<=2);
       /* decoders */
